@@ -765,3 +765,6 @@ def workload(ctx):
     for h in ("map_sum", "map_product", "map_quotient", "map_power", "map_call", "map_if",
               "map_common_subexpression_uncached", "map_variable"):
         ctx.floor("handler:DifferentiationMapper." + h, 500)
+
+
+RULE = RULE + '  Later additions: one mapper applied to its own output; a function table that re-enters differentiate(); failed differentiations before every refusal check; fixed-width numpy coefficients.'
